@@ -260,15 +260,14 @@ def shapeFlags (v : View) : List String :=
   ++ (if v.anyElem styleOverwrite then ["style-overwrite"] else [])
 
 def pairFlags (a b : View) : List String :=
-  (if View.anyElemPair toggleRenamed a b then ["toggle-rename"] else [])
-  ++ (if View.anyElemPair styleRenamed a b then ["style-rename"] else [])
+  if View.anyElemPair dupItemPair a b then ["dup-item"] else []
 
 def addFlags (s : St) (v : View) : St :=
   let fl := shapeFlags v ++ (match s.prev with | some a => pairFlags a v | none => [])
   { s with classes := s.classes ++ fl.filter (fun f => !s.classes.contains f), prev := some v }
 
 def classOrder : List String :=
-  ["dup-item", "class-overwrite", "style-overwrite", "toggle-rename", "style-rename"]
+  ["dup-item", "class-overwrite", "style-overwrite"]
 
 def verdict (s : St) (v : View) : String :=
   match regionNorm s, freshNorm s v with
